@@ -118,6 +118,7 @@ def install(extra_modules=()):
         return _installed
     tab, keep = _rebind_table()
     _installed["__keep__"] = keep
+    S.advertise_classes()
     names = list(KIO_MODULES) + list(extra_modules)
     # any further kio module already imported that is not a schema module
     for name in list(sys.modules):
@@ -134,8 +135,16 @@ def install(extra_modules=()):
             if k.startswith("__") and k.endswith("__"):
                 continue
             m = tab.get(id(v))
-            if m is None and isinstance(v, _struct.Struct):
-                m = M.StructObjModel(v.format)  # a precompiled format object: same model as struct.pack/unpack
+            if m is None:
+                m = _struct_model(v)  # a precompiled format object or one of its bound methods
+            if m is None and type(v) in (dict, list):
+                # a module-level table of precompiled formats / boundary functions (e.g. {width: Struct(...).unpack})
+                items = list(v.items()) if type(v) is dict else list(enumerate(v))
+                for kk, vv in items:
+                    mm = tab.get(id(vv)) or _struct_model(vv)
+                    if mm is not None:
+                        v[kk] = mm
+                        rep.append(f"{k}[{kk!r}]->{getattr(mm, '__name__', type(mm).__name__)}")
             if m is None and type(v) is bytearray:
                 # a module-level scratch buffer: replace it by a model that can hold symbolic bytes
                 m = B.ByteArrayModel(bytes(v))
@@ -167,6 +176,15 @@ def install(extra_modules=()):
     return _installed
 
 
+def _struct_model(v):
+    """-> model for a precompiled struct.Struct instance or for a bound pack/unpack method of one, else None"""
+    if isinstance(v, _struct.Struct):
+        return M.StructObjModel(v.format)
+    if isinstance(v, types.BuiltinMethodType) and isinstance(getattr(v, "__self__", None), _struct.Struct) and v.__name__ in ("pack", "unpack", "unpack_from"):
+        return getattr(M.StructObjModel(v.__self__.format), v.__name__)
+    return None
+
+
 def _rebind_closure(fn, tab):
     rep = []
     for i, cell in enumerate(fn.__closure__ or ()):
@@ -174,7 +192,7 @@ def _rebind_closure(fn, tab):
             v = cell.cell_contents
         except ValueError:
             continue
-        m = tab.get(id(v))
+        m = tab.get(id(v)) or _struct_model(v)
         if m is not None:
             cell.cell_contents = m
             rep.append(f"{fn.__qualname__}.<cell{i}>->{getattr(m, '__name__', type(m).__name__)}")
